@@ -32,7 +32,7 @@ def validate(ctx, traces, tag, module="Trace_ClientMux"):
     return acc, still
 
 
-def execute(ctx, binp, scns, test, module, kind):
+def execute(ctx, binp, scns, test, module, kind, extra_env=None):
     """run the schedules on the real multiplexer (in-process or OS-process client) and validate the event logs"""
     scnp = os.path.join(ctx.build, "c10.%s.scn" % kind)
     vf.write_ndjson(scnp, scns)
@@ -40,6 +40,7 @@ def execute(ctx, binp, scns, test, module, kind):
     d = os.path.join(ctx.build, "c10.%s.d" % kind)
     os.makedirs(d, exist_ok=True)
     env = dict(VERIF_SCN=scnp, VERIF_OUT=outp, VERIF_SCRIPT="B", VERIF_DIR=d)
+    env.update(extra_env or {})
     p = ctx.run_harness(binp, test, env=env, timeout=3000, check=False)
     if "WARNING: DATA RACE" in p.stdout:
         i = p.stdout.index("WARNING: DATA RACE")
@@ -53,6 +54,21 @@ def execute(ctx, binp, scns, test, module, kind):
     if skipped:
         ctx.notes["skipped_after_hangs_" + kind] = len(skipped)
     hangs = [t for t in traces if t.get("hang")]
+    unrep = [t for t in hangs if t["hang"].startswith("UNREPRODUCED")]
+    if unrep and not extra_env:
+        # seen once or twice in up to eight executions while 2 x cores schedules ran at the same time: decide in a calm
+        # second pass - two at a time, watchdog 60 s instead of 15 s.  A schedule that then runs to its end was slow
+        # (machine load), not stuck; one that stops again is kept (and reproduced ones are reported as hangs).
+        calm = [dict(hist=t["schedule"]) for t in unrep[:60]]
+        cp, co = scnp + ".calm", outp + ".calm"
+        vf.write_ndjson(cp, calm)
+        ctx.run_harness(binp, test, env=dict(env, VERIF_SCN=cp, VERIF_OUT=co, VERIF_PAR=2, VERIF_WATCHDOG_S=60), timeout=3000, check=False)
+        again = vf.read_ndjson(co)
+        if len(again) != len(calm):
+            raise vf.Machinery("calm pass produced %d traces for %d schedules" % (len(again), len(calm)))
+        still = [t for t in again if t.get("hang")]
+        ctx.notes["slow_under_load_" + kind] = dict(first_pass=len(unrep), retried=len(calm), ran_to_their_end=len(calm) - len(still))
+        hangs = [t for t in hangs if not t["hang"].startswith("UNREPRODUCED")] + still + unrep[60:]
     for t in hangs:
         if t["hang"].startswith("harness"):
             raise vf.Machinery("harness problem: %s schedule=%s" % (t["hang"], json.dumps(t["schedule"])))
@@ -90,6 +106,40 @@ def execute(ctx, binp, scns, test, module, kind):
             else:
                 ctx.notes["unreproduced_rejections"] = ctx.notes.get("unreproduced_rejections", 0) + 1
     return traces, ok, acc
+
+
+def stall_scns(ctx, want):
+    """schedules of a conformant client that at some point stops doing anything (Gen_ClientMux StallNext)"""
+    g = ctx.tlc("Gen_ClientMux", "Gen_ClientMux_stall.cfg", workers=1, simulate="num=%d" % (want * 40), depth=300, timeout=2400)
+    seen, res = set(), []
+    for s in g.json_lines("SCN "):
+        k = json.dumps(s)
+        if k in seen or not any(h[0] == "ST" for h in s["hist"]):
+            continue
+        seen.add(k)
+        res.append(s)
+    # spread over: answers before the client went quiet, requests started and not answered by then, sends afterwards,
+    # and whether at some point before everything started had been answered (the reader was idle) and more was sent
+    def cls(s):
+        h = [x[0] for x in s["hist"]]
+        i = h.index("ST")
+        w, snd, idle_then_send = 0, 0, False
+        for k in h[:i]:
+            if k == "S":
+                idle_then_send = idle_then_send or w == snd
+                snd += 1
+            elif k == "W":
+                w += 1
+        return (min(w, 2), min(snd - w, 2), "S" in h[i:], idle_then_send)
+    groups = {}
+    for s in res:
+        groups.setdefault(cls(s), []).append(s)
+    picked = []
+    while len(picked) < want and any(groups.values()):
+        for k in sorted(groups):
+            if groups[k] and len(picked) < want:
+                picked.append(groups[k].pop(0))
+    return picked
 
 
 def reduced_leg(ctx, total, note):
@@ -134,7 +184,17 @@ def run(ctx):
                     scns.append(s)
     ctx.log("%d distinct controller schedules" % len(scns))
     binp = ctx.go_test_bin("internal/app/connectconformance", ["c10", "peers"], race=True)
+    if ctx.replay and any(h[0] == "ST" for h in scns[0]["hist"]):
+        execute(ctx, binp, scns, "TestVerifC10Run", "Trace_ClientMux", "stall", extra_env=dict(VERIF_WATCHDOG_S=45))
+        return
     traces, ok, acc = execute(ctx, binp, scns, "TestVerifC10Run", "Trace_ClientMux", "inproc")
+    # a client that goes quiet for good: what ends the wait is the reader's 20 s response timeout (ReadTimeout)
+    stall = stall_scns(ctx, 16 if q else 96) if not ctx.replay else []
+    if stall:
+        ctx.tlc("MC_ClientMux", "MC_ClientMux_stall.cfg", deadlock=True, timeout=3000)
+        t3, ok3, acc3 = execute(ctx, binp, stall, "TestVerifC10Run", "Trace_ClientMux", "stall", extra_env=dict(VERIF_WATCHDOG_S=45))
+        ctx.notes["stalled_client"] = dict(schedules=len(stall), accepted=len(acc3))
+        traces, ok = traces + t3, ok + ok3
     # the same schedules against a client that is an OS process (how a client under test is run)
     mco = ctx.tlc("MC_ClientMuxOS", "MC_ClientMuxOS_live.cfg" if q else "MC_ClientMuxOS_q.cfg", deadlock=True, timeout=3000)
     ctx.notes["mc_design_os"] = dict(distinct=mco.distinct, generated=mco.generated)
